@@ -21,6 +21,8 @@ import json
 import mmap
 import os
 import random
+import resource
+import signal
 import sys
 import time
 import types
@@ -919,6 +921,24 @@ class Journal:
         self.prev = n
 
 
+HANG_CPU_S = 90  # CPU seconds the next 50 inputs may use together (normal: < 1 s; worst pathological batch ~20 s)
+
+
+def _cpu_watchdog(off=False):
+    """Hangs are decided on CPU time, never on wall clock: the kernel sends SIGXCPU (default action: kill) when this
+    worker's CPU time passes the soft RLIMIT_CPU, which is pushed forward every 50 inputs.  `re` backtracking cannot
+    be interrupted from Python, hence the rlimit; on_lost() turns a SIGXCPU death into a violation with the
+    journalled input.  A wall-clock timeout of the shard stays "lost" (inconclusive)."""
+    _soft, hard = resource.getrlimit(resource.RLIMIT_CPU)
+    if off:
+        resource.setrlimit(resource.RLIMIT_CPU, (hard, hard))
+    else:
+        lim = int(time.process_time()) + HANG_CPU_S
+        if hard != resource.RLIM_INFINITY:
+            lim = min(lim, hard)
+        resource.setrlimit(resource.RLIMIT_CPU, (lim, hard))
+
+
 def _fuzz_pool(E, rng, classes):
     pool = list(SEEDS)
     labels = sorted(classes)
@@ -945,6 +965,7 @@ def work_fuzz(E, job, O):
     avail = {k[5:]: f for k, f in facts.items() if k.startswith("pass:")}  # lazy registry
     pass_names = sorted(c.name for l, c in classes.items() if l.startswith("pass:"))
     pool = _fuzz_pool(E, rng, classes)
+    _cpu_watchdog()
     for s in pool[:len(SEEDS)]:
         fuzz_one(E, O, s, avail, journal)
     n_path = 0
@@ -968,10 +989,13 @@ def work_fuzz(E, job, O):
         if "\ud800" <= max(s, default="a") and any("\ud800" <= c <= "\udfff" for c in s):
             O.count("fuzz_excluded_lone_surrogate")
             continue
+        if i % 50 == 0:
+            _cpu_watchdog()
         fuzz_one(E, O, s, avail, journal)
         if i == 0:
             O.samples.append({"fuzz_input": s[:200]})
     journal("")
+    _cpu_watchdog(off=True)
 
 
 # ----------------------------------------------------------------------------- work / finish / on_lost
@@ -990,14 +1014,16 @@ def work(job):
     elif kind == "fuzz":
         work_fuzz(E, job, O)
     elif kind == "fuzz1":
-        fuzz_one(E, O, job["s"], {k[5:]: f for k, f in _factories(E).items() if k.startswith("pass:")})
+        _cpu_watchdog()
+        fuzz_one(E, O, job["s"], {k[5:]: f for k, f in _factories(E).items() if k.startswith("pass:")}, Journal())
+        _cpu_watchdog(off=True)
     else:
         raise ValueError(kind)
     return O.result(E)
 
 
 def on_lost(info):
-    if info.get("status") == "timeout" and info["job"].get("kind") in ("fuzz", "fuzz1"):
+    if info.get("status") == "died" and info.get("rc") == -signal.SIGXCPU and info["job"].get("kind") in ("fuzz", "fuzz1"):
         j = (info.get("journal") or "").strip()
         if j:
             try:
@@ -1007,10 +1033,10 @@ def on_lost(info):
             if not s:
                 return None
             if isinstance(s, dict):
-                return [{"key": "hang:parse_pipeline", "summary": f"worker timed out while parsing {s['head'][:80]!r}...",
+                return [{"key": "hang:parse_pipeline", "summary": f"over {HANG_CPU_S}s CPU while parsing {s['head'][:80]!r}...",
                          "witness": {"input_head": s["head"], "input_length": s["truncated_input_of_length"],
                                      "job": info["job"]}}]
-            return [{"key": "hang:parse_pipeline", "summary": f"worker timed out while parsing {s[:80]!r}",
+            return [{"key": "hang:parse_pipeline", "summary": f"over {HANG_CPU_S}s CPU (SIGXCPU) while parsing {s[:80]!r}",
                      "witness": {"input": s, "replay_job": {"kind": "fuzz1", "s": s}}}]
     return None
 
